@@ -34,6 +34,11 @@ CHECKS = {
         note="Trusted: the harness's own model AST to find the catcher; H2 trace; H1 live dump for error fields. One error source per run.",
         technique="deterministic simulation: seeded error injection through the client/script/package seam, model-derived oracle",
         ref="DESIGN.md §6 C06"),
+    "C09": dict(
+        text="Seeded search over ack policies per message key (now / never / later:n / twice), the ticks at which the client answers interrupts, max_message_retry_times 1..5, tick_interval_secs {1,15}, stalled ticks, redo/clear operations, engine restarts at quiescent points, both store backends (in-memory with collection transplant, SQLite file) and schedules, on the discrete-event clock. RefMsgStore per message id over the recorded history (store-call log from proxy collections, deliveries with simulator sequence numbers, ack/action/redo instants, message rows at every quiescent point): stored before the handler, same id/content, retry counts consecutive up to the maximum, then error and silence until redo, no redelivery from a tick that started after ack/close, statuses never move back, un-acked open messages are redelivered. Sampling: evidence, not proof.",
+        note="Trusted: proxy collections registered through the public Extender (call order), timer/clock shims. A redelivery emitted before the ack returned is in flight and accepted. Below 300 stored messages.",
+        technique="deterministic simulation: discrete-event ticks, lossy/late/duplicate acknowledgements, restart faults, history check against a per-message reference model",
+        ref="DESIGN.md §6 C09"),
     "C15": dict(
         text="Seeded search over parent/child(/grandchild) models, child endings (completed, error, aborted, missing model) and interleavings of the child's return with other parent activity: the calling act is open at every quiescent point before the child's terminal event, closed exactly once afterwards with the prescribed state/data/error, the child's inputs equal the call's options, the successor starts once and only after the call is closed, the parent's terminal event is generated after the child's. Sampling: evidence, not proof.",
         note="Trusted: H1 live dumps at quiescent points, id shim for event generation order. Child ending `skipped` is not reachable through client actions and is not generated.",
